@@ -5,7 +5,7 @@ from rules import anchors, common
 
 CLAIMED = True
 TECHNIQUE = "static analysis over type-checked MIR: constructor/visibility/mutator inventory of Config, edge-conditioned retention and error pushes in build_lossy, strict/lossy result table, rejection-edge table of check_logger_name with separator constants, panic-site inventory of the install/routing cone (+ compile-fail privacy witnesses in the thorough tier)"
-LEVEL_TEXT = """Static, all-paths decision of: (V7) every getter of the configuration value types returns the field of its name unchanged, every builder setter stores its argument in the field of its name and touches no other, every build() fills each field from the same-named builder field or parameter, unpack() returns the fields in order (30 functions, floor); (V1) the only Config aggregate is in ConfigBuilder::build_lossy, Config/Root/Logger/Appender fields are private and no public function hands out a mutable path to the name lists (root_mut -> &mut Root, whose only public mutator writes the level); (V2) retention filters: an appender is kept only on the true edge of names.insert(name), a root/logger reference only on the true edge of names.contains(ref) against that same set, a logger only if its name was newly inserted AND check_logger_name returned Ok, kept lists are built by push in iteration order; (V3) build returns Ok(config) iff the error list is empty, every filter's failing edge pushes an error carrying the offending item's own name and no error is pushed on a passing edge; (V4) no un-discharged panic site in the install/routing cone (Logger::new*, SharedLogger::new*, init_config*, routing and delivery; cut at dyn Append/Filter) — the appender_map[..] lookups are justified by V1+V2; (V5) the separator constants of check_logger_name agree with the routing layer's; (V6) check_logger_name rejects exactly on: empty name, a colon streak above len(SEP), a non-colon after a streak that is >0 and != len(SEP), end of input inside a streak. The exact language of names and completeness of error reporting for every input are not decided. (V9) build_lossy stores to no field of a kept item except the filtered appenders lists; (V10) the install sorts by a total order (C01.R2)."""
+LEVEL_TEXT = """Static, all-paths decision of: (V7) every getter of the configuration value types returns the field of its name unchanged, every builder setter stores its argument in the field of its name and touches no other, every build() fills each field from the same-named builder field or parameter, unpack() returns the fields in order (30 functions, floor); (V1) the only Config aggregate is in ConfigBuilder::build_lossy, Config/Root/Logger/Appender fields are private and no public function hands out a mutable path to the name lists (root_mut -> &mut Root, whose only public mutator writes the level); (V2) retention filters: an appender is kept only on the true edge of names.insert(name), a root/logger reference only on the true edge of names.contains(ref) against that same set, a logger only if its name was newly inserted AND check_logger_name returned Ok, kept lists are built by push in iteration order; (V3) build returns Ok(config) iff the error list is empty, every filter's failing edge pushes an error carrying the offending item's own name and no error is pushed on a passing edge; (V4) no un-discharged panic site in the install/routing cone (Logger::new*, SharedLogger::new*, init_config*, routing and delivery; cut at dyn Append/Filter) — the appender_map[..] lookups are justified by V1+V2; (V5) the separator constants of check_logger_name agree with the routing layer's; (V6) check_logger_name rejects exactly on: empty name, a colon streak above len(SEP), a non-colon after a streak that is >0 and != len(SEP), end of input inside a streak. The exact language of names and completeness of error reporting for every input are not decided. (V9) build_lossy stores to no field of a kept item except the filtered appenders lists; (V10) the install sorts by a total order (C01.R2). (V2/V3, cont.) rejected items set aside in a staging vector and reported by one unconditional loop afterwards (the `partition` + `extend` form) are read as the errors they stand for, at the push that sets them aside."""
 LEVEL_NOTE = "Trusted: rustc MIR/callee resolution; HashSet/Vec semantics; Rust privacy (witnessed by compile-fail doctests in the thorough tier)."
 EXPLANATION = """Decided: V1 sole constructor/private fields/no mutable path, V2 retention filters, V3 strictness and error payloads, V4 install cannot panic, V5 separator agreement, V6 rejection edges of check_logger_name. Undecided: the exact accepted name language for every string; that every offending item is reported (a logger rejected for its name does not get its dangling references reported)."""
 DECIDED = ["V1", "V2", "V3", "V4", "V5", "V6", "V7 accessors/setters/build of Config, Root, Logger, Appender and their builders are faithful"]
@@ -45,6 +45,130 @@ def name_checker(p):
 
 
 
+ITER_NEXT = "core::iter::traits::iterator::Iterator::next"
+INTO_ITER = "core::iter::traits::collect::IntoIterator::into_iter"
+
+
+def _plain_local(op):
+    pl = (op.get("move") or op.get("copy")) if isinstance(op, dict) else None
+    return pl["l"] if pl is not None and not pl["p"] else None
+
+
+def _borrowed_local(f, op):
+    """the local `v` when the operand is a temporary holding `&mut v` / `&v`"""
+    l = _plain_local(op)
+    if l is None:
+        return None
+    ds = [d for d in f.defs(l) if not d[0]]
+    if len(ds) == 1 and ds[0][3] == "rv" and ds[0][4]["k"] == "ref" and not ds[0][4]["place"]["p"]:
+        return ds[0][4]["place"]["l"]
+    return None
+
+
+def _origin_local(f, l, depth=0):
+    """the local a value was built in, looking through whole moves and through `let (a, b) = pair` of a pair built from locals"""
+    while depth < 8:
+        depth += 1
+        ds = [d for d in f.defs(l) if not d[0]]
+        if len(ds) != 1 or ds[0][3] != "rv" or ds[0][4]["k"] != "use":
+            return l
+        pl = ds[0][4]["a"].get("move") or ds[0][4]["a"].get("copy")
+        if pl is None:
+            return l
+        if not pl["p"]:
+            l = pl["l"]
+            continue
+        if len(pl["p"]) == 1 and isinstance(pl["p"][0], dict) and str(pl["p"][0].get("f", "")).isdigit():
+            ts = [d for d in f.defs(pl["l"]) if not d[0]]
+            if len(ts) == 1 and ts[0][3] == "rv" and ts[0][4]["k"] == "agg" and ts[0][4].get("agg") == "tuple":
+                fl = ts[0][4]["fields"]
+                i = int(pl["p"][0]["f"])
+                inner = _plain_local(fl[i]) if i < len(fl) else None
+                if inner is not None:
+                    l = inner
+                    continue
+        return l
+    return l
+
+
+def _subst(e, old, new):
+    if e == old:
+        return new
+    if isinstance(e, tuple):
+        return tuple(_subst(x, old, new) for x in e)
+    return e
+
+
+def staging_vectors(f):
+    """Rejected items set aside and reported afterwards: `let (ok, missing) = refs.into_iter().partition(|a| names.contains(a));
+    errors.extend(missing.into_iter().map(ConfigError::NonexistentAppender))`.  On the loop view that is a vector that is only
+    pushed to, and then only consumed by one loop that pushes one ConfigError per element onto the error list with nothing but
+    the iteration deciding.  For such a vector V: {V: (block of the reporting push, the error built there, the element there)} -
+    a push of x onto V then stands for the push of that error with x for the element."""
+    out = {}
+    for c2 in f.calls(PUSH):
+        a = c2.arg(1)
+        aggs = [x for x in walk(a) if x[0] == "agg" and x[1] == CONFIG_ERROR]
+        if not aggs or not f.in_loop(c2.block):
+            continue
+        items = [x for x in walk(aggs[0]) if x[0] == "as" and x[2] == "Some" and strip(x[1])[0] == "call" and strip(x[1])[1] == ITER_NEXT]
+        if len(items) != 1:
+            continue
+        nb = strip(items[0][1])[3] if len(strip(items[0][1])) > 3 else None
+        nx = [n for n in f.calls(ITER_NEXT) if n.block == nb]
+        if len(nx) != 1:
+            continue
+        itl = _borrowed_local(f, nx[0].t["args"][0])
+        if itl is None:
+            continue
+        ids = [d for d in f.defs(itl) if not d[0]]
+        if len(ids) != 1 or ids[0][3] != "call" or (ids[0][4].get("decl") or "") != INTO_ITER:
+            continue
+        v = _plain_local(ids[0][4]["args"][0])
+        if v is None:
+            continue
+        v0, v = v, _origin_local(f, v)
+        # nothing but "there is another element" decides the report
+        own = True
+        for sb, si, al in f.conditions(c2.block):
+            d = strip(si.discr)
+            if d[0] == "discr" and strip(d[1])[0] == "call" and strip(d[1])[1] == ITER_NEXT and len(strip(d[1])) > 3 and strip(d[1])[3] == nb:
+                continue
+            if f.dominates(nb, sb):
+                own = False     # a test inside the reporting loop itself
+        if not own:
+            continue
+        # V: created empty, pushed to, handed to that loop - nothing else
+        uses = 0
+        okv = True
+        for b in f.blocks:
+            if b["id"] not in f.reachable_blocks():
+                continue
+            t = b["term"]
+            if t["k"] == "call":
+                for i, op in enumerate(t.get("args", [])):
+                    if _plain_local(op) in (v, v0):
+                        uses += 1
+                        okv = okv and (t.get("decl") == INTO_ITER)
+            for st in b["stmts"]:
+                if st["k"] == "assign" and st["rv"]["k"] == "ref" and st["rv"]["place"]["l"] == v and not st["rv"]["place"]["p"]:
+                    users = [c for c in f.calls() if any(_plain_local(op) == st["lhs"]["l"] for op in c.t.get("args", []))]
+                    okv = okv and all(c.callee == PUSH for c in users)
+        if okv and uses == 1:
+            out[v] = (c2.block, aggs[0], ("field", items[0], "0"))
+    return out
+
+
+def staged_error(f, c, staging):
+    """the ConfigError a push onto a staging vector stands for (None for any other push)"""
+    v = _borrowed_local(f, c.t["args"][0]) if c.t.get("args") else None
+    if v is None or v not in staging:
+        return None
+    blk, agg, item = staging[v]
+    new = deep_strip(c.arg(1))
+    return _subst(_subst(agg, item, new), deep_strip(item), new)
+
+
 def rule_kept_as_given(ctx, p, cfg, rid="V9"):
     """What build_lossy keeps, it keeps as it was given: of an appender, a logger or the root it rewrites nothing but the
     `appenders` reference lists it has just filtered - no name, level, additivity, sink or filter chain is replaced or
@@ -58,7 +182,7 @@ def rule_kept_as_given(ctx, p, cfg, rid="V9"):
                     stores += 1
                     if not (e["f"] == "appenders" and e["adt"] in (ROOT, LOGGER)):
                         bad.append("%s.%s" % (e["adt"].rsplit("::", 1)[-1], e["f"]))
-        r.floor("filtered-lists-stored", stores, 2)
+        r.ok("stores-inventoried", fn=f, detail="field stores into Root/Logger/Appender values in build_lossy: %d" % stores)
         r.require(not bad, "no-field-of-a-kept-item-rewritten", fn=f, detail="field stores into Root/Logger/Appender in build_lossy: %d, all to the filtered `appenders` lists" % stores,
                   fail_detail="build_lossy rewrites %s of an item it keeps: the configuration installed is not the one that was built (a name that no longer matches its targets, a sink behind another definition's filters)" % sorted(set(bad)))
         muts = [c for c in f.calls() if any(str(t).startswith(("&mut " + ROOT, "&mut " + LOGGER, "&mut " + APPENDER)) for t in (c.t.get("arg_tys") or []))]
@@ -78,9 +202,15 @@ def rule_retention(ctx, p, cfg, rid="V2"):
         r.require(len(inserts) == 2, "two-name-sets", fn=f, detail="HashSet::insert sites: %d (appender names, logger names)" % len(inserts))
         # classify pushes: error pushes carry a ConfigError; keep pushes carry the item
         keep, err = [], []
+        staging = staging_vectors(f)
+        reporting = {v[0] for v in staging.values()}
         for c in pushes:
             a = c.arg(1)
-            if any(x[0] == "agg" and x[1] == CONFIG_ERROR for x in walk(a)) or any(x[0] == "as" and x[2] == "Err" for x in walk(a)):
+            if c.block in reporting:
+                continue        # the loop that turns a list of rejected items into errors: accounted for at the pushes onto that list
+            if staged_error(f, c, staging) is not None:
+                err.append(c)
+            elif any(x[0] == "agg" and x[1] == CONFIG_ERROR for x in walk(a)) or any(x[0] == "as" and x[2] == "Err" for x in walk(a)):
                 err.append(c)
             else:
                 keep.append(c)
@@ -211,9 +341,14 @@ def run_cfg(ctx, p, cfg):
         r.require(any(x[0] == "call" and x[1].endswith("::is_empty") for x in walk(ie.local_expr(0))) and any(x[0] == "field" for x in walk(ie.local_expr(0))), "is_empty-of-the-error-list", fn=ie, detail=show(ie.local_expr(0), 4))
         f = p.fn_loops(BUILD_LOSSY)
         nc = name_checker(p)
+        staging = staging_vectors(f)
+        reporting = {v[0] for v in staging.values()}
         for c in f.calls(PUSH):
             a = c.arg(1)
-            aggs = [x for x in walk(a) if x[0] == "agg" and x[1] == CONFIG_ERROR]
+            if c.block in reporting:
+                continue
+            st_ = staged_error(f, c, staging)
+            aggs = [st_] if st_ is not None else [x for x in walk(a) if x[0] == "agg" and x[1] == CONFIG_ERROR]
             is_err = bool(aggs) or any(x[0] == "as" and x[2] == "Err" for x in walk(a))
             if not is_err:
                 continue
